@@ -27,7 +27,7 @@ def make_libset(lay, rng, k, tag):
     ten = lay.enums["type"]
     FD, GL = ten["F_fully_defined"], ten["F_global"]
     shared = [("S%s_%d" % (tag, i)).encode() for i in range(rng.randrange(1, 4))]
-    definer = {s: rng.choice(list(range(k)) + [None]) for s in shared}
+    definer = {s: rng.choice(list(range(k)) + [None, None]) for s in shared}      # None: every library only refers to it
     libs = []
     for j in range(k):
         g = dbgen.DbGen(lay, rng, nasty=0.0, max_per_kind=rng.choice([2, 3, 4]), canonical=True)
@@ -115,7 +115,7 @@ def run(ck):
                "between the requests; real library vs Lean model op by op, and the final database (parsed from the bytes the real library writes) "
                "vs the disjoint-union oracle and vs the other orders")
     try:
-        n_sets = 8 if quick else 150
+        n_sets = 14 if quick else 150
         for n in range(n_sets):
             k = rng.choice([2, 3, 3]) if quick else rng.choice([2, 3, 4, 4])
             libs, shared = make_libset(lay, rng, k, str(n))
@@ -191,9 +191,25 @@ def run(ck):
                         if g2 != want:
                             d = [f for f in want if want[f] != g2.get(f)]
                             problem = "type %r: the fully defined definition did not win (fields %s)" % (key[1], d)
+                    else:
+                        # nobody defines it: one of the forward references is kept, with its cross references carried to the merged indices
+                        cands = []
+                        for a in t["any"]:
+                            a2 = dict(a)
+                            a2["_flags"] = (a2["_flags"] | GL) if t["global"] else (a2["_flags"] & ~GL)
+                            cands.append(a2)
+                        if dict(got) not in cands:
+                            d = sorted(set(f for a2 in cands for f in a2 if a2[f] != got.get(f)))
+                            problem = "type %r (defined by no library): the merged record equals none of the libraries' records (fields %s)" % (key[1], d)
                 extra = [key for key in c if key not in exp and key not in tinfo]
                 if not problem and extra:
                     problem = "entries %r belong to no input library" % (extra[:3],)
+                # the enumeration of global types lists exactly the types that are global
+                if not problem:
+                    base = len(ops) - 4 - len(names)
+                    n_global = sum(1 for key, r in c.items() if key[0] == "type" and r["_flags"] & GL)
+                    if impl[base - 4] != str(n_global):
+                        problem = "global types: the enumeration has %s entries, %d types of the merged database are global" % (impl[base - 4], n_global)
                 # by-name lookups reflect all loaded files
                 if not problem:
                     base = len(ops) - 4 - len(names)
